@@ -94,6 +94,16 @@ func c13MakeDefs(kind string, at *AtomTable) []*c13Def {
 		v := at.New(ClsIdent, "cv", "consts")
 		n := at.New(ClsNum, "cv", "")
 		return []*c13Def{{k(), func() string { return ph(v) + " + " + ph(n) }, func() string { return ph(v) + " + " + ph(n) }}}
+	case "alias-multi":
+		// a constant defined as exactly one other constant whose value has
+		// several tokens
+		v := at.New(ClsIdent, "cv", "consts")
+		n := at.New(ClsNum, "cv", "")
+		k1, k2 := k(), k()
+		return []*c13Def{
+			{k1, func() string { return ph(v) + " + " + ph(n) }, func() string { return ph(v) + " + " + ph(n) }},
+			{k2, func() string { return ph(k1) }, func() string { return ph(v) + " + " + ph(n) }},
+		}
 	case "chain":
 		v := at.New(ClsNum, "cv", "")
 		k1, k2, k3 := k(), k(), k()
@@ -163,7 +173,7 @@ func c13Case(site c13Site, defKind string) *Case {
 			what = "output vs output of the program without the constant definitions (the identifier is not a constant use)"
 		}
 		v := expectLines(x, "substitution", what, outputLines(base.Out, false), outputLines(want.Out, false))
-		if v != nil && site.name == "comparison-value-strict" && defKind != "one-single" && ref != "none" {
+		if v != nil && site.name == "comparison-value-strict" && defKind != "one-single" && defKind != "alias-multi" && ref != "none" {
 			v.Tags = append(v.Tags, "value_of_multi_token_constant")
 		}
 		return v
@@ -271,7 +281,7 @@ func RunC13(env *Env, rep *Report) {
 	var siteNames []string
 	for _, s := range c13Sites() {
 		siteNames = append(siteNames, s.name)
-		for _, dk := range []string{"one-single", "one-multi", "chain"} {
+		for _, dk := range []string{"one-single", "one-multi", "chain", "alias-multi"} {
 			if s.name == "mart-item" && dk != "one-single" {
 				continue // a multi-token value cannot be written out as a mart item
 			}
@@ -284,7 +294,7 @@ func RunC13(env *Env, rep *Report) {
 	multiOK := func(s c13Site, dk string) bool { return s.name != "mart-item" || dk == "one-single" }
 	for i, a := range sites {
 		for j, b := range sites {
-			for _, dk := range []string{"one-single", "one-multi", "chain"} {
+			for _, dk := range []string{"one-single", "one-multi", "chain", "alias-multi"} {
 				if !multiOK(a, dk) || !multiOK(b, dk) || (a.avs != nil && b.avs != nil) {
 					continue
 				}
@@ -303,8 +313,8 @@ func RunC13(env *Env, rep *Report) {
 		}
 	}
 	rep.Technique = "symbolic execution of the real constant handling (go/ssa) with symbolic constant names, values and use-site identifier; relational rope equality between P with constants and P with the value written out, the aliasing pattern decided by the solver (z3)"
-	rep.Explanation = "Bounded symbolic verification, not a proof. For every documented use site (command argument - also inside nested parentheses and of an autovar command -, flag/var/defeated operand, comparison value with and without value(), switch operand, case value, map-script table condition and value, mart item) and every non-site (command name, movement and moves() step, label, text content, map-script type, script name), a program with one identifier U at that position is compiled by symbolic execution under three definition sets (one single-token constant, one multi-token constant, a chain of three constants defined from each other), with all names and values symbolic; in the same symbolic state the programs with each constant's fully expanded value written in place of U, and the program without definitions, are compiled. Whether U is one of the constants is a solver-decided fork. Asserted: at a site the output equals that of the program with the matching constant's expanded value (or of the definition-free program if U matches none); at a non-site it equals the definition-free program's output whatever U is; acceptance/rejection agree. Files with two uses (two top-level statements at two sites; every ordered pair of sites in the thorough tier, each site with its successor in the quick tier) are checked the same way against the program with both values written out, with the definitions placed before both statements or between them - in the latter placement the first use is not a later use and must stay as written."
-	rep.Bounds = map[string]interface{}{"sites": siteNames, "definition_sets": []string{"one single-token", "one multi-token", "chain of 3 (defined from each other)"}, "cases": len(cases), "uses_per_program": "1 and 2 (two statements at two sites; definitions before both or between them)", "two_use_cases": pairs}
+	rep.Explanation = "Bounded symbolic verification, not a proof. For every documented use site (command argument - also inside nested parentheses and of an autovar command -, flag/var/defeated operand, comparison value with and without value(), switch operand, case value, map-script table condition and value, mart item) and every non-site (command name, movement and moves() step, label, text content, map-script type, script name), a program with one identifier U at that position is compiled by symbolic execution under four definition sets (one single-token constant, one multi-token constant, a chain of three constants defined from each other, a multi-token constant with an alias defined as just that constant), with all names and values symbolic; in the same symbolic state the programs with each constant's fully expanded value written in place of U, and the program without definitions, are compiled. Whether U is one of the constants is a solver-decided fork. Asserted: at a site the output equals that of the program with the matching constant's expanded value (or of the definition-free program if U matches none); at a non-site it equals the definition-free program's output whatever U is; acceptance/rejection agree. Files with two uses (two top-level statements at two sites; every ordered pair of sites in the thorough tier, each site with its successor in the quick tier) are checked the same way against the program with both values written out, with the definitions placed before both statements or between them - in the latter placement the first use is not a later use and must stay as written."
+	rep.Bounds = map[string]interface{}{"sites": siteNames, "definition_sets": []string{"one single-token", "one multi-token", "chain of 3 (defined from each other)", "a multi-token constant and an alias of it"}, "cases": len(cases), "uses_per_program": "1 and 2 (two statements at two sites; definitions before both or between them)", "two_use_cases": pairs}
 	rep.Outside = []string{"more than two uses per program", "more than 3 definitions", "constants inside poryswitch cases"}
 	rep.Assumptions = []string{"constant names are pairwise distinct identifiers (redefinition is C20)", "names are generic identifiers (Int-coded)"}
 	rep.Functions = []string{"parseConstant", "tryReplaceWithConstant", "parseCommandStatement", "parseLeafBooleanExpression", "parseConditionVarOperator", "parseSwitchStatement", "parseMapscriptsStatement", "parseMartStatement"}
